@@ -25,8 +25,8 @@ REACH = {'logic.convert': ('logic.py', 83, 121), 'logic.bp': ('logic.py', 261, 2
 
 # the documented character table (docstrings of the eight constants in kyupy/logic.py)
 ALIASES = {
-    0: ['0', 0, False, 'L', 'l'],
-    3: ['1', 1, True, 'H', 'h'],
+    0: ['0', 0, False, 'L', 'l', np.uint8(0), np.int64(0), np.bool_(False), np.int8(0)],        # the same value in another number type is the same value
+    3: ['1', 1, True, 'H', 'h', np.uint8(1), np.int64(1), np.bool_(True), np.int8(1)],
     2: ['-', None, 'Z', 'z'],
     5: ['R', 'r', '/'],
     6: ['F', 'f', '\\'],
@@ -206,7 +206,7 @@ def one(ctx, rng, nrng):
                             ctx.violation('mv_str', f'mvarray({str(s)!r}) returns other values after an earlier result was modified in place', case)
                         ctx.count('result_mutated_then_repeated')
         else:
-            S, P = rng.randint(2, 8), rng.randint(2, 12)
+            S, P = rng.choice([1, 1, 2, 3, 5, 8]), rng.choice([1, 1, 2, 3, 7, 12])      # a single signal / a single pattern are legal shapes too
             a = nrng.integers(0, 8, size=(S, P), dtype=np.uint8)
             delim = rng.choice(['\n', ' ', ',', '|'])
             case = {'rngkey': getattr(rng, 'key', None), 'kind': 'mvstr', 'a': a.tolist(), 'delim': delim}
@@ -215,8 +215,11 @@ def one(ctx, rng, nrng):
                 exp = delim.join(enc.v2s(a[:, p]) for p in range(P))
                 if s != exp:
                     ctx.violation('mv_str', f'mv_str renders {s!r}, expected one string of the {S} signal values per pattern: {exp!r}', case)
-                elif not np.array_equal(L.mvarray(*str(s).split(delim)), a):
-                    ctx.violation('mv_str', 'mvarray(*mv_str(a).split(delim)) != a', case)
+                else:
+                    back = np.asarray(L.mvarray(*str(s).split(delim)))
+                    # (a single pattern or a single signal comes back as a 1-D vector - the documented convention; the values are what matters here)
+                    if back.size != a.size or not np.array_equal(back.reshape(a.shape), a):
+                        ctx.violation('mv_str', 'mvarray(*mv_str(a).split(delim)) != a', case)
         ctx.count('mv_str_roundtrip')
         ctx.case(case, True, key=case)
     elif kind == 'pack':
